@@ -153,6 +153,7 @@ pub(crate) mod verif_probe {
                     }
                     "has_ps" => json!({"has": server.has_prepared_statement(step["name"].as_str().unwrap())}),
                     "claim" => { server.claim(step["pid"].as_i64().unwrap() as i32, step["key"].as_i64().unwrap() as i32); json!({"ok": true}) }
+                    #[cfg(not(verif_probe_minimal))]
                     "map_put" => {
                         // another server (pid2, key2, host, port) claims itself for client (pid, key): what Server::claim on THAT server does
                         csmap.lock().insert((step["pid"].as_i64().unwrap() as i32, step["key"].as_i64().unwrap() as i32),
